@@ -196,6 +196,13 @@ def check_sums(case):
        total([x >> y for x in terms for y in (post, post)], dom, post.cod),
        "bilinear-then")
     if cls != "cat":
+        eq(cls, s @ two, total([x @ y for x in terms[:case["split"]]
+                                for y in (post, post)],
+                               dom @ cod, cod @ post.cod),
+           "bilinear-tensor")
+        eq(cls, both @ t, total([x @ y for x in terms
+                                 for y in terms[case["split"]:]],
+                                dom @ dom, cod @ cod), "bilinear-tensor")
         eq(cls, both @ other,
            total([x @ other for x in terms], dom @ other.dom,
                  cod @ other.cod), "tensor-distributes-left")
